@@ -43,7 +43,9 @@ fn generate(seed: u64, tier: Tier) -> Value {
     let mut ops = Vec::new();
     for i in 0..nops {
         ops.push(json!({"o": i, "node": r.below(n), "kind": *r.pick(&["lookup", "lookup", "find_node", "put", "put", "get", "get", "ping", "connect", "connect"]), "start_ms": r.below(2 * timeout_ms),
-                        "key_salt": r.below(6), "to": r.below(n), "count": *r.pick(&[1u64, 8, 20]), "len": *r.pick(&[0u64, 10, 512])}));
+                        "key_salt": r.below(6), "to": r.below(n), "count": *r.pick(&[1u64, 8, 20]), "len": *r.pick(&[0u64, 10, 512]),
+                        // one caller in six gives up on its operation part-way (drops the future)
+                        "abandon_ms": if r.chance(1, 6) { r.below(timeout_ms + timeout_ms / 2) } else { 0 }}));
     }
     // connections that do not exist yet, each with lookups on both ends around the same instant:
     // the peer-connected handler then runs while lookups sit between their two lock sections
@@ -74,8 +76,11 @@ fn generate(seed: u64, tier: Tier) -> Value {
             // and a burst of further work on that node around the stop instant
             for _ in 0..r.below(4) {
                 let o = ops.len() as u64;
-                ops.push(json!({"o": o, "node": q["node"], "kind": *r.pick(&["lookup", "find_node", "put", "get"]), "start_ms": at.saturating_sub(r.below(timeout_ms / 2 + 10)),
-                                "key_salt": r.below(6), "to": r.below(n), "count": *r.pick(&[8u64, 20]), "len": 10}));
+                let back = r.below(timeout_ms / 2 + 10);
+                ops.push(json!({"o": o, "node": q["node"], "kind": *r.pick(&["lookup", "find_node", "put", "get", "ping"]), "start_ms": at.saturating_sub(back),
+                                "key_salt": r.below(6), "to": r.below(n), "count": *r.pick(&[8u64, 20]), "len": 10,
+                                // one in three of these callers gives up just before the stop instant
+                                "abandon_ms": if r.chance(1, 3) { 1 + r.below(back.max(1)) } else { 0 }}));
             }
         } else {
             stops.push(json!({"node": r.below(n), "at_ms": r.below(3 * timeout_ms)}));
@@ -138,6 +143,7 @@ fn execute(sc: &Value) -> RunReport {
             let key = key_of(q["key_salt"].as_u64().unwrap_or(0));
             let count = q["count"].as_u64().unwrap_or(8) as usize;
             let value = vec![0x5a; q["len"].as_u64().unwrap_or(0) as usize];
+            let abandon_ms = q["abandon_ms"].as_u64().unwrap_or(0);
             let mut to = (q["to"].as_u64().unwrap_or(0) as usize) % n;
             if to == node { to = (to + 1) % n; }
             let peer = tids[to].clone();
@@ -165,10 +171,19 @@ fn execute(sc: &Value) -> RunReport {
                         _ => mgr.send_request(&peer, DhtNetworkOperation::Ping).await.map(|r| simnet::result_name(&r).to_string()).map_err(|e| e.to_string()),
                     }
                 };
-                let out = match tokio::time::timeout(Duration::from_millis(b_op), fut).await {
-                    Ok(Ok(s)) => format!("ok:{s}"),
-                    Ok(Err(e)) => format!("err:{}", e.chars().take(60).collect::<String>()),
-                    Err(_) => "EXCEEDED".to_string(),
+                let out = if abandon_ms > 0 {
+                    // the caller drops the operation's future at a drawn instant (its own shorter timeout)
+                    match tokio::time::timeout(Duration::from_millis(abandon_ms), fut).await {
+                        Ok(Ok(s)) => format!("ok:{s}"),
+                        Ok(Err(e)) => format!("err:{}", e.chars().take(60).collect::<String>()),
+                        Err(_) => "abandoned".to_string(),
+                    }
+                } else {
+                    match tokio::time::timeout(Duration::from_millis(b_op), fut).await {
+                        Ok(Ok(s)) => format!("ok:{s}"),
+                        Ok(Err(e)) => format!("err:{}", e.chars().take(60).collect::<String>()),
+                        Err(_) => "EXCEEDED".to_string(),
+                    }
                 };
                 let e = net2.now_ms();
                 if let Some(x) = log.lock().unwrap().get_mut(&o) { x.3 = Some((e, out)); }
@@ -220,6 +235,7 @@ fn execute(sc: &Value) -> RunReport {
                 None => ctx.violate("C20.liveness.operation_never_returned", kind.clone(), format!("op {o} ({kind} on node {node}) started at {} ms and never returned", s - t0)),
                 Some((e, out)) => {
                     ev!("op {o} {kind} node={node} start={} dur={} -> {out}", s - t0, e - s);
+                    if out == "abandoned" { ctx.probe("caller_abandoned_operation"); ctx.fault("caller_abandons_operation"); }
                     if out == "EXCEEDED" {
                         ctx.violate("C20.liveness.operation_exceeded_bound", kind.clone(), format!("op {o} ({kind} on node {node}) did not return within {b_op} ms (30 x (dial + request timeout) + 5 s)"));
                     }
@@ -257,6 +273,6 @@ fn execute(sc: &Value) -> RunReport {
     });
     drop(rt);
     saorsa_core::verif_hooks::set_yield_points(0, 0);
-    for k in ["ops_overlapped_on_a_node", "fault_inside_operation", "stop_with_ops_in_flight"] { ctx.probes.entry(k.to_string()).or_insert(0); }
+    for k in ["ops_overlapped_on_a_node", "fault_inside_operation", "stop_with_ops_in_flight", "caller_abandoned_operation"] { ctx.probes.entry(k.to_string()).or_insert(0); }
     ctx.finish()
 }
